@@ -41,6 +41,7 @@ class FnSpec:
         self.nth = kw.pop('nth', None)
         self.n4 = kw.pop('n4', True)
         self.n4c = kw.pop('n4c', False)
+        self.n16 = kw.pop('n16', False)
         self.safety_props = kw.pop('safety_props', None)
         self.group = kw.pop('group', None)
         self.optional = kw.pop('optional', False)     # item may be absent (e.g. an override of a trait default); then nothing to check             # emit inside the named group block (see Unit.groups)
@@ -151,6 +152,7 @@ def _cond(t, features):
 def _privatise(t):
     """single-module file with private extracted items: spec/prelude text is made private as well"""
     t = re.sub(r'\bpub\s+(open|closed)\s+spec\s+fn', 'spec fn', t)
+    t = re.sub(r'\b(open|closed)\s+spec\s+fn', 'spec fn', t)
     t = re.sub(r'\bpub\s+(?!assume_specification)', '', t)
     return t
 
@@ -232,6 +234,8 @@ def generate(unit, repo, vacuity=False):
                 text, r = A.n4b_ok_and_then(text); norms += r
             if spec.n4c:
                 text, r = A.n4c_map(text); norms += r
+            if spec.n16:
+                text, r = A.n16_add_assign(text); norms += r
             text, r = A.regex_rules(text, unit.global_rules + spec.rules); norms += r
             text, hoisted, r = A.n14_hoist(text); norms += r
             try:
